@@ -178,7 +178,37 @@ VBin1(ev) ==
   CASE ev[2] = "overlap" -> VOverlap(a, b, pa, pb, en) [] ev[2] = "intersection" -> VIntersect(a, b, pa, pb, en)
     [] ev[2] = "minus" -> VMinus(a, b, pa, pb, en) [] ev[2] = "contains" -> VContains(a, b, pa, pb, en)
     [] ev[2] = "union" -> VUnion(a, b, pa, pb, ev[8]) [] OTHER -> "unknown-binary-op"
-Verdict(ev) == CASE ev[1] = "bin1" -> VBin1(ev) [] ev[1] = "pair" -> VPair(ev) [] ev[1] = "un" -> VUn(ev) [] ev[1] = "empty" -> VEmpty(ev)
+(* one unary call (a step of a calculator behaviour replayed on real objects): ["un1", name, a, pa, outcome] *)
+VUn1(ev) ==
+  LET a == ev[3] pa == ev[4] o == ev[5] IN
+  IF ev[2] = "gaps" THEN
+     (IF PosSet(a) = {} THEN Ok(Rejected(o) \/ (IsVal(o) /\ PosSet(o[2]) = {}), "gaps:empty")
+      ELSE IF ~Directional(St(a)) /\ Rejected(o) THEN "ok"
+      ELSE IF ~IsVal(o) THEN "gaps:returns"
+      ELSE IF PosSet(o[2]) # SemGapsPos(a) THEN "gaps:positions"
+      ELSE IF ~IsEmptyLoc(o[2]) /\ St(o[2]) # St(a) THEN "gaps:strand" ELSE Struct(o, pa, "gaps"))
+  ELSE IF ev[2] = "opt" THEN
+     (IF ~IsVal(o) THEN "optimize:returns"
+      ELSE IF ~(\A p \in PosSet(a) \cup PosSet(o[2]) : Cover(o[2], p) = Cover(a, p)) THEN "optimize:positions"
+      ELSE IF ~Optimised(o[2]) THEN "optimize:normal-form"
+      ELSE IF ~IsEmptyLoc(o[2]) /\ St(o[2]) # St(a) THEN "optimize:strand" ELSE Struct(o, pa, "optimize"))
+  ELSE IF ev[2] = "optc" THEN
+     (IF ~IsVal(o) THEN "combine:returns"
+      ELSE IF PosSet(o[2]) # PosSet(a) THEN "combine:positions"
+      ELSE IF ~CombinedNF(o[2]) THEN "combine:normal-form"
+      ELSE IF ~IsEmptyLoc(o[2]) /\ St(o[2]) # St(a) THEN "combine:strand" ELSE Struct(o, pa, "combine"))
+  ELSE "unknown-unary-op"
+
+(* a sub-interval step inside a replayed calculator behaviour: ["sub1", a, x, y, rs, outcome <<"v", loc, "*">>].
+   Its meaning is property C01 (judged there, exhaustively); here only closure: what it returns is a well-formed
+   location on the right strand, so that the next set operation of the behaviour starts from a legal operand. *)
+VSub1(ev) ==
+  LET a == ev[2] o == ev[6] IN
+  IF ~IsVal(o) THEN Ok(Rejected(o), "sub:internal-error")
+  ELSE IF ~WellFormed(o[2], -1) THEN "sub:wellformed"
+  ELSE Ok(IsEmptyLoc(o[2]) \/ St(o[2]) = RelStrand(ev[5], St(a)), "sub:strand")
+
+Verdict(ev) == CASE ev[1] = "sub1" -> VSub1(ev) [] ev[1] = "un1" -> VUn1(ev) [] ev[1] = "bin1" -> VBin1(ev) [] ev[1] = "pair" -> VPair(ev) [] ev[1] = "un" -> VUn(ev) [] ev[1] = "empty" -> VEmpty(ev)
                  [] ev[1] = "cert" -> VCert(ev) [] OTHER -> "unknown-op"
 Bad == {i \in DOMAIN Trace : Verdict(Trace[i]) # "ok"}
 ASSUME \A i \in Bad : PrintT(<<"BAD", i, Verdict(Trace[i])>>)
